@@ -82,7 +82,7 @@ def random_cases(rng, n):
         else:
             from fractions import Fraction
             den = rng.choice([1, 2, 8, 1024])
-            sh = rng.randint(-3000, 3000)
+            sh = rng.randint(-3000, 3000) if rng.random() < 0.5 else -rng.choice(ks)      # every other case contains an exact 0.0
             yield {"fn": "search", "x": [[fr.numerator, fr.denominator] for fr in (Fraction(k + sh, den) for k in ks)],
                    "q": [[fr.numerator, fr.denominator] for fr in (Fraction(k + sh, den) for k in qs)],
                    "enc": {"kind": "rat"}, "container": rng.choice(["array", "list"])}
@@ -111,11 +111,8 @@ def run():
         if len(e["x"]) >= 2 and len(e["q"]) >= 2:
             c.count_nontrivial((str(e["x"]), str(e["q"]), e["enc"]["kind"]))
     # negative control: one wrong index in one recorded result must be rejected
-    neg = next(e for e in evs if e["calls"][0]["outcome"] == "ok")
-    import copy
-    neg = copy.deepcopy(neg)
-    neg["calls"][0]["out"][0] += 1
-    c.add_negative(neg, "C10.value")
+    c.negative_from(evs, lambda e: e["calls"][0]["outcome"] == "ok" and e["calls"][0]["out"],
+                    lambda e: e["calls"][0]["out"].__setitem__(0, e["calls"][0]["out"][0] + 1), "C10.value")
     c.rule = ("cases = (strictly increasing array, sorted query list); each is replayed through the 3 scan functions x "
               "fill flag and through the dispatcher (12 calls per case); lattice cases are emitted by TLC "
               "(MC_Search, exhaustive), the others are seeded random float arrays built as base+k*ulp or dyadic "
